@@ -1,0 +1,39 @@
+//go:build verif
+
+package protocol
+
+import "net"
+
+// Exports for the external verification harness (properties C02 / C13). Add-only; compiled only with -tags verif.
+
+const (
+	VerifC02SegmentTreeCapacity      = segmentTreeCapacity
+	VerifC02MinWindowSize            = minWindowSize
+	VerifC02MaxWindowSize            = maxWindowSize
+	VerifC02TxCountLimit             = txCountLimit
+	VerifC02EarlyRetransmission      = earlyRetransmission
+	VerifC02EarlyRetransmissionLimit = earlyRetransmissionLimit
+	VerifC02MaxPDU                   = maxPDU
+	VerifC02PacketOverhead           = packetOverhead
+	VerifC02MaxSessionOpenPayload    = MaxSessionOpenPayload
+
+	VerifC02OpenSessionRequest           = int(openSessionRequest)
+	VerifC02OpenSessionResponse          = int(openSessionResponse)
+	VerifC02CloseSessionRequest          = int(closeSessionRequest)
+	VerifC02CloseSessionResponse         = int(closeSessionResponse)
+	VerifC02DataClientToServer           = int(dataClientToServer)
+	VerifC02DataServerToClient           = int(dataServerToClient)
+	VerifC02AckClientToServer            = int(ackClientToServer)
+	VerifC02AckServerToClient            = int(ackServerToClient)
+	VerifC02DataClientToServerLowEntropy = int(dataClientToServerLowEntropy)
+	VerifC02DataServerToClientLowEntropy = int(dataServerToClientLowEntropy)
+)
+
+// VerifC02SessionID returns the private id of a *Session (false if c is not a *Session).
+func VerifC02SessionID(c net.Conn) (uint32, bool) {
+	s, ok := c.(*Session)
+	if !ok || s == nil {
+		return 0, false
+	}
+	return s.id, true
+}
